@@ -498,6 +498,29 @@ func registerStringIntercepts() {
 			}
 			return out, true
 		}),
+		"strings.Cut": sym2(func(i *interpreter, a []value) (value, bool) {
+			parts, _ := ropeOf(a[0])
+			sep, ok := a[1].(string)
+			if !ok {
+				panic(unmodelled{"strings.Cut with symbolic separator"})
+			}
+			out, ok := ropeSplit(i.W, parts, sep)
+			if !ok {
+				panic(unmodelled{"strings.Cut(" + strconv.Quote(sep) + ") on a rope whose atoms may contain the separator"})
+			}
+			if len(out) == 1 {
+				return tuple{a[0], "", false}, true
+			}
+			var rest []ropePart
+			for k, o := range out[1:] {
+				if k > 0 {
+					rest = append(rest, ropePart{kind: rkLit, lit: sep})
+				}
+				p, _ := ropeOf(o)
+				rest = append(rest, p...)
+			}
+			return tuple{out[0], normRope(i.W, rest), true}, true
+		}),
 		"strings.HasPrefix": sym2(func(i *interpreter, a []value) (value, bool) {
 			x, _ := strTermOf(a[0])
 			y, _ := strTermOf(a[1])
